@@ -527,7 +527,7 @@ impl Session {
         Ok(None)
     }
 
-    fn prepare_session_frames_from_buffered_transfers(
+    pub(crate) fn prepare_session_frames_from_buffered_transfers(
         &mut self,
         mut output_frame_buffer: Vec<SessionFrame>,
     ) -> Result<Vec<SessionFrame>, SessionInnerError> {
